@@ -46,6 +46,33 @@ def suite(rng, tier):
     return out
 
 
+PIPELINED = {'map', 'filter', 'flatmap', 'writerfunc', 'prefixed', 'head'}
+
+
+def output_order(sc, res):
+    """Whether the bytes of a result's output are fixed by the program ('reproducible') or depend on the order in
+    which a shuffle consumer happens to read its producers ('read-order'): the nearest shuffle at or above the
+    output node is a Reshuffle/Repartition/Reshard, which pass rows through in arrival order (exec.DoShuffleReaders
+    randomises that order), rather than a Reduce/Fold/Cogroup, which emit sorted keys."""
+    def steps(ss):
+        for st in ss:
+            yield st
+            for g in st.get('steps') or []:
+                yield from steps(g)
+    prog = next((st['prog'] for st in steps(sc['steps']) if st.get('do') == 'run' and st.get('as') == res), None)
+    if not prog:
+        return ''
+    j = prog['out']
+    while True:
+        nd = prog['nodes'][j]
+        if nd['op'] in ('reshuffle', 'repartition', 'reshard'):
+            return 'read-order'
+        if nd['op'] in PIPELINED and nd['in']:
+            j = nd['in'][0]
+            continue
+        return 'reproducible' if nd['op'] != 'arg' else 'argument'
+
+
 def kills_step(plans):
     return {'do': 'kills', 'as': '', 'res': '', 'args': [], 'kills': plans}
 
@@ -102,6 +129,16 @@ def run(tier, replay=None):
     chk.assumptions = vlib.TRUSTED
     rng = random.Random(vlib.seed() * 2011 + 2)
     with vlib.WorkCopy('c02', harness=['prog']) as w:
+        # design level (ScanResume.tla): resuming a scan in a recomputed output is exact and live when the output is
+        # reproducible; the other configuration documents known finding KF-C02-scan-resume-recomputed (TLC is
+        # expected to find the duplicated-and-missing-rows history there). Neither decides a verdict.
+        r1 = vlib.tlc(w.root + '/tlc/scanresume', 'ScanResume', 'ScanResume_repro.cfg', workers=2, timeout=300)
+        vlib.tlc_must_parse(r1, 'ScanResume_repro')
+        chk.add_tlc('exhaustive ScanResume_repro.cfg', r1)
+        if r1.violated or not r1.ok:
+            raise Inconclusive('ScanResume design check failed: %s' % (r1.violated or r1.error))
+        r2 = vlib.tlc(w.root + '/tlc/scanresume2', 'ScanResume', 'ScanResume_order.cfg', workers=2, timeout=300)
+        chk.cov['design_counterexample_for_known_finding'] = bool(r2.violated)
         if replay:
             scs = [json.load(open(os.path.join(replay, 'replay.json')))['payload']['scenario']]
             scs[0]['id'] = 1
@@ -173,9 +210,41 @@ def run(tier, replay=None):
                     scs.append(progs.scenario(len(scs) + 1, rounds_history(p0, p1, rounds), exec_='bigmachine', interpose=True, loss=True, timeout_s=60, **cfgs[i]))
                     nlong += 1
             chk.cov['repeated_loss_histories'] = nlong
+            # torn streams: the machine serving a scan dies after b bytes of the reply, for many b, with small
+            # batches (VERIF_CHUNK=4) so that some b fall on batch boundaries; run as a batch of its own
+            tear = []
+            tprogs = []
+            while len(tprogs) < (8 if tier == 'quick' else 16):
+                g = progs.Gen(rng, mid=True)
+                j = g.source()
+                if g.nodes[j]['op'] == 'scanreader':
+                    continue
+                if rng.random() < 0.5:
+                    j = g.grow(j, last=False)
+                    if g.kind[j] == 'weak' or g.nodes[j]['op'] == 'head':
+                        continue
+                fin = rng.choice(['fold', 'fold', 'fold', 'reduce', 'cogroup', 'reshuffle', 'map'])
+                j = g.add(progs.N(fin, **{'in': [j]}, f={'reduce': 'sum', 'map': 'inc'}.get(fin, '')), 'bag', g.nsh[j])
+                tprogs.append({'nodes': g.nodes, 'out': j, 'taps': []})
+            # directed: the history of known finding KF-C02-scan-resume-recomputed (a pass-through shuffle consumer)
+            rr = random.Random(17)
+            kf = {'nodes': [progs.N('const', nshard=3, rows=progs.rows(rr, 90, 12)), progs.N('reshuffle', **{'in': [0]})], 'out': 1, 'taps': []}
+            tprogs.insert(0, kf)
+            # directed: the history of the repaired Fold defect (FX-C02-fold-order)
+            tprogs.insert(1, {'nodes': [progs.N('const', nshard=1, rows=[[k, rr.randrange(9)] for k in range(12) for _ in range(2)]),
+                                        progs.N('fold', **{'in': [0]})], 'out': 1, 'taps': []})
+            for i, p0 in enumerate(tprogs):
+                offs = rng.sample(range(1, 400), (16 if i < 2 else 5) if tier == 'quick' else 120)
+                for b in offs:
+                    plans = [{'method': 'Worker.Read', 'ordinal': rng.choice([1, 1, 2]), 'phase': 'mid', 'bytes': b}]
+                    steps = [kills_step([]), progs.step_run('r0', p0), kills_step(plans), progs.step_scan('r0'), kills_step([]), progs.step_scan('r0')]
+                    tear.append(progs.scenario(100000 + len(tear) + 1, steps, exec_='bigmachine', interpose=True, loss=True, timeout_s=60, **rng.choice(cfgs)))
+            chk.cov['torn_stream_histories'] = len(tear)
             base_n = len(base)
             recs2, path2 = progs.execute(w, scs[base_n:], workers=10 if tier == 'quick' else 24, tag='c02', timeout=6000, env={'VERIF_FASTBOOT': 1})
-            recs = brecs + recs2
+            recs3, path3 = progs.execute(w, tear, workers=10 if tier == 'quick' else 24, tag='c02tear', timeout=6000, env={'VERIF_FASTBOOT': 1, 'VERIF_CHUNK': 4})
+            scs = scs + tear
+            recs = brecs + recs2 + recs3
             path = w.out('c02all_records.ndjson')
             vlib.write_ndjson(path, recs)
         v = progs.judge(chk, w, path, len(recs))
@@ -185,6 +254,7 @@ def run(tier, replay=None):
         chk.cov['baseline_histories'] = base_n
         chk.cov['kill_histories'] = len(recs) - base_n
         chk.cov['machines_killed'] = fired
+        chk.cov['calls_to_reused_address_of_killed_machine'] = sum(r.get('addr_reused_calls', 0) for r in recs)
         chk.cov['kill_points_hit'] = methods
         chk.cov['events'] = sum(len(r['events']) for r in recs)
         for s_ in scs:
@@ -197,7 +267,9 @@ def run(tier, replay=None):
             sc = byid[b['id']]
             rec = rb[b['id']]
             kl = [(k['method'], k['phase']) for k in rec.get('killlog', []) if k.get('killed')]
-            chk.violation({'what': b['what'], 'do': b['do'], 'kills': json.dumps(sorted(set(kl)))},
+            ev = next((e for e in rec['events'] if e.get('seq') == b['seq']), {})
+            chk.violation({'what': b['what'], 'do': b['do'], 'kills': json.dumps(sorted(set(kl))),
+                           'output_order': output_order(sc, ev.get('res', '')) if b['do'] == 'scan' else ''},
                           '%s (scenario %s, seq %s, %s; machines killed at %s): %s' % (b['what'], b['id'], b['seq'], b['do'], kl, str(b['detail'])[:300]),
                           {'scenario': sc, 'record': rec})
         return chk.finish()
